@@ -3,9 +3,9 @@
    (join contiguity in the stream LTS, variant [fixed] = the code with the join mutex) and
    Proofs/C02ClassifyProofs.v (byte-level classification, FLV join timestamps). *)
 From Coq Require Import ZArith List Bool.
-From V Require Import C08Flv.
+From V Require Import C08Flv C08Fanout.
 From V Require Import StreamLts Cache LtsWire C02Classify CacheProofs LtsJoinProofs C02ClassifyProofs
-                      C02FlvProducer C02FlvProducerProofs.
+                      C02FlvProducer C02FlvProducerProofs C02FlvViewers C02FlvViewersProofs C02FanoutJoinProofs.
 Import ListNotations.
 
 (* ---------------- A. what the cache replays ---------------- *)
@@ -234,6 +234,40 @@ Theorem C02_flv_producer_model_passes : forall hevc aac fs,
 Proof. exact prod_model_passes. Qed.
 Print Assumptions C02_flv_producer_model_passes.
 
+(* ---------------- E. the join replay is a function of the published tags only ---------------- *)
+
+(* the FLV tags are shared objects (cache, every consumer's queue, every replay hold the same
+   reference).  In the shared-reference world model of C08 (Model/C08Fanout.v), for every tag
+   store and every schedule [pre ++ EAttach :: post] of deliveries, attachments and runs of ANY
+   client's flv.Writer: the tags are unchanged, the client attached after [pre] was handed exactly
+   PushTo of the cache of the tags delivered in [pre] followed by the tags delivered in [post] —
+   an expression in which no other consumer occurs — and its byte stream is what one fresh writer
+   makes of those tags *)
+Theorem C02_flv_join_independent_of_viewers : forall store pre post,
+  let sched := pre ++ EAttach :: post in
+  let handed := push_to store (cache_after store pre) ++ map QRef (delivs post) in
+  fst (fan_run store sched) = store /\
+  nth (attaches pre) (fan_hist store sched) [] = handed /\
+  nth (attaches pre) (snd (fan_run store sched)) [] = write_tags w_init (map (resolve store) handed).
+Proof. exact flv_join_independent_of_viewers. Qed.
+Print Assumptions C02_flv_join_independent_of_viewers.
+
+(* the prediction of the correspondence stream "flv-join-next-to-viewers" does not mention the
+   viewers, and its oracle (every replay, read at the join and again at the end, is the cache
+   specification over the published prefix — C02_flv_join_timestamps — and the published tags are
+   unchanged) accepts it *)
+Theorem C02_flv_viewers_ignored : forall gopon tags evs n,
+  viewers_joins gopon tags n evs = viewers_joins gopon tags n (strip_viewers evs).
+Proof. exact viewers_joins_ignore_viewers. Qed.
+Print Assumptions C02_flv_viewers_ignored.
+
+Theorem C02_flv_viewers_model_passes : forall gopon tags evs,
+  viewers_ok gopon tags evs
+    (map (fun r => (r, r)) (viewers_joins gopon tags O evs))
+    (map (fun t => (snd (fst t), snd t)) tags) = true.
+Proof. exact viewers_model_passes. Qed.
+Print Assumptions C02_flv_viewers_model_passes.
+
 (* ---------------- non-vacuity ---------------- *)
 
 (* a live-stream schedule (no TClose) on the repaired code in which consumer 0 joins after SPS, PPS
@@ -262,7 +296,13 @@ Example C02_nonvacuous :
   (sets_known (prod_cfg true false) = true /\
    prod_kinds true false [mkFrame 0 0 0 [38; 1; 7]; mkFrame 0 40000000 40000000 [2; 1; 7];
                           mkFrame 0 80000000 80000000 [42; 1; 7]; mkFrame 0 120000000 120000000 [2; 1; 7]]%Z
-     = [5; 3; 2; 1; 2; 1]%Z).
+     = [5; 3; 2; 1; 2; 1]%Z) /\
+  (* a joiner after a key frame at source time 100000 and one inter frame, next to a viewer that
+     has written both: headers restamped 100000, the two media tags with their published times *)
+  map (fun x => (fst (fst x), snd (fst x)))
+      (nth 0 (viewers_joins true [(9, 0, [23; 0; 1]); (9, 100000, [23; 1; 7]); (9, 100040, [39; 1; 8])]%Z O
+                            [VAttach; VPub; VPub; VPub; VView 0 3; VJoin]) [])
+    = [(0, 100000); (1, 100000); (2, 100040)]%Z.
 Proof.
   split.
   - repeat constructor; discriminate.
